@@ -5,8 +5,8 @@
 
 use crate::havok::byte_reader::ByteReader;
 use crate::havok::object::{
-    HavokInteger, HavokObject, HavokObjectType, HavokObjectTypeMember, HavokRootObject, HavokValue,
-    HavokValueType,
+    HavokInteger, HavokObject, HavokObjectPool, HavokObjectType, HavokObjectTypeMember,
+    HavokRootObject, HavokValue, HavokValueType,
 };
 use crate::havok::slice_ext::SliceByteOrderExt;
 use core::cell::RefCell;
@@ -57,7 +57,7 @@ pub struct HavokBinaryTagFileReader<'a> {
     remembered_strings: Vec<Arc<str>>,
     remembered_types: Vec<Arc<HavokObjectType>>,
     remembered_objects: Vec<Arc<RefCell<HavokObject>>>,
-    objects: Vec<Arc<RefCell<HavokObject>>>,
+    objects: HavokObjectPool,
     reader: ByteReader<'a>,
 }
 
@@ -79,7 +79,7 @@ impl<'a> HavokBinaryTagFileReader<'a> {
             Vec::new(),
         ))];
         let remembered_objects = Vec::new();
-        let objects = Vec::new();
+        let objects = HavokObjectPool::default();
 
         Self {
             struct_elements_left: reader.raw().len(),
@@ -133,12 +133,15 @@ impl<'a> HavokBinaryTagFileReader<'a> {
         }
 
         // fill object references
-        for object in &self.objects {
+        for object in self.objects.iter() {
             self.fill_object_reference(&mut object.borrow_mut())?;
         }
 
         // (the root is the first object of the file: entry 0 is the placeholder of the FileInfo tag)
-        Some(HavokRootObject::new(self.remembered_objects.get(1)?.clone()))
+        Some(HavokRootObject::new(
+            self.remembered_objects.get(1)?.clone(),
+            std::mem::take(&mut self.objects),
+        ))
     }
 
     fn read_object(&mut self) -> Option<HavokObject> {
